@@ -17,7 +17,7 @@ COMPONENTS = {
 
 WEIGHTS = {'add_pattern': 3, 'add_curve': 3, 'add_junction': 6, 'add_tank': 2, 'add_reservoir': 2, 'add_pipe': 6, 'add_pump': 3, 'add_valve': 3,
            'add_source': 2, 'add_demand': 2, 'add_control': 4, 'remove': 10, 'remove_free_node': 1, 'set_end': 3, 'set_ref': 4, 'set_attr': 1,
-           'leak': 0, 'set_option': 0, 'restart': 2}
+           'leak': 1, 'set_option': 0, 'restart': 2}
 
 
 class StoreProp(Prop):
